@@ -92,8 +92,42 @@ def abs_opts(o):
             'profile': o.get('profile', 'default'), 'ts': bool(o.get('ts')), 'incremental': False}
 
 
+class OrderedScandir:
+    """os.scandir replacement returning entries sorted by name, ascending or descending"""
+
+    def __init__(self, real, path, reverse):
+        self._it = real(path)
+        self._ents = iter(sorted(self._it, key=lambda e: e.name, reverse=reverse))
+
+    def __iter__(self):
+        return self
+
+    def __next__(self):
+        return next(self._ents)
+
+    def __enter__(self):
+        return self
+
+    def __exit__(self, *a):
+        self.close()
+
+    def close(self):
+        self._it.close()
+
+
 def run_history(root, L, rng, namer, opts, meta, cli=False):
     """One history on the tree at root.  -> list of records"""
+    real_scandir = os.scandir
+    if opts.get('scandir_order'):
+        rev = opts['scandir_order'] == 'desc'
+        os.scandir = lambda p='.', _r=real_scandir, _v=rev: OrderedScandir(_r, p, _v)
+    try:
+        return _run_history(root, L, rng, namer, opts, meta, cli)
+    finally:
+        os.scandir = real_scandir
+
+
+def _run_history(root, L, rng, namer, opts, meta, cli=False):
     from . import gem
     recs = []
     top = os.path.join(root, 'Manifest')
@@ -454,3 +488,147 @@ def transparent_group(args):
                  'descr': [json.dumps(a) for a in assigns], 'meta': {'seed': seed, 'idx': idx}}]
     finally:
         shutil.rmtree(base, ignore_errors=True)
+
+
+
+# ---------------------------------------------------------------------------------------------
+# directed family: sibling directories whose names are string- but not component-prefixes of each
+# other, a sub-Manifest in the shorter-named one, both enumeration orders
+
+PAIRS = [('d', 'da'), ('pkg', 'pkg-bin'), ('app', 'app.d'), ('x', 'x y'), ('lib', 'lib2')]
+
+
+def lookalike_update(args):
+    seed, idx, o = args
+    from . import gem
+    rng = random.Random('look-%d-%d' % (seed, idx))
+    base = tlc.scratch_dir('vl')
+    try:
+        short, long_ = rng.choice(PAIRS)
+        parent = rng.choice(['', 'cat'])
+        pre = (parent + '/') if parent else ''
+        L = gen.Layout(rng)
+        L.dirs = [''] + ([parent] if parent else []) + [pre + short, pre + long_]
+        comp = rng.choice(gen.COMPS)
+        smf = pre + short + '/Manifest' + ('' if comp == 'plain' else '.' + comp)
+        L.mf['Manifest'] = []
+        L.mf[smf] = []
+        hs = rng.choice(HASHSETS)
+        for d, mp in ((pre + short, smf), (pre + long_, 'Manifest')):
+            for n in rng.sample(['f1', 'f2', 'a b', 'zz'], rng.randrange(1, 3)):
+                p = d + '/' + n
+                L.files[p] = rng.choice([b'abc', b'abd', b'hello'])
+                L.add_file_entry(mp, p, L.files[p], 'DATA', hs)
+        L.files['top.txt'] = b'top'
+        L.add_file_entry('Manifest', 'top.txt', b'top', 'DATA', hs)
+        L.mf['Manifest'].append({'tag': 'MANIFEST', 'path': smf, 'size': 0, 'ck': {'SHA256': ''}, 'ref': smf})
+        L.mf['Manifest'].append({'tag': 'DIST', 'path': 'd.tar', 'size': 1, 'ck': {}})
+        src = os.path.join(base, 'src')
+        os.mkdir(src)
+        L.write(src)
+        # edits: new files in both siblings, maybe a change
+        for d in (pre + short, pre + long_):
+            if rng.random() < 0.8:
+                with open(os.path.join(src, d, 'new-%d' % rng.randrange(5)), 'wb') as f:
+                    f.write(b'new file')
+        if rng.random() < 0.5:
+            p = rng.choice(sorted(L.files))
+            with open(os.path.join(src, p), 'ab') as f:
+                f.write(b'!')
+        sub = rng.choice(['', '', pre + short, pre + long_])
+        sort = rng.choice([True, True, None])
+        recs = []
+        variants = []
+        for order in ('asc', 'desc'):
+            dst = os.path.join(base, order)
+            shutil.copytree(src, dst, symlinks=True)
+            opts = {'hashes': hs, 'sub': sub, 'sort': sort, 'force': False, 'wm': None, 'fmt': None,
+                    'profile': 'default', 'scandir_order': order}
+            namer = fm.Namer()
+            pre_snap = raw_snapshot(dst)
+            rr = run_history(dst, L, rng, namer, opts, {'seed': seed, 'idx': idx, 'lookalike': [short, long_], 'order': order})
+            recs += rr
+            post = raw_snapshot(dst)
+            ok = rr and rr[0]['ev']['end'] == 'ok'
+            variants.append([[p, dg, 'W' if pre_snap.get(p) != post.get(p) else '-'] for p, dg in manifest_bytes_map(dst)]
+                            if ok else [['<failed>', 'x', 'W']])
+        if sort:
+            recs.append({'kind': 'canon', 'variants': variants, 'descr': ['ascending walk', 'descending walk'],
+                         'meta': {'seed': seed, 'idx': idx, 'lookalike': [short, long_], 'sub': sub}})
+        return recs
+    finally:
+        shutil.rmtree(base, ignore_errors=True)
+
+
+# ---------------------------------------------------------------------------------------------
+# direction 1: behaviours exported by TLC from Update.tla, replayed into the real loader
+
+PRED_END = {'ok': ('ok', ''), 'oserror': ('oserror', ''), 'syntax': ('fail', 'ManifestSyntaxError'),
+            'incompatible': ('fail', 'ManifestIncompatibleEntry'), 'invalidpath': ('fail', 'ManifestInvalidPath'),
+            'internal': ('internal', '')}
+
+
+def _prep_update_scenario(scn):
+    nodes = dict(('/'.join(n['p']), n) for n in scn['nodes'])
+    for m in scn['mfs']:
+        d = m['p'][:-1]
+        if not m['ok']:
+            m['raw'] = 'this is not a Manifest\n'
+        for e in m['entries']:
+            if e['tag'] != 'MANIFEST':
+                continue
+            full = '/'.join(d + e['p'])
+            n = nodes.get(full)
+            if n is not None and e['size'] == n['size'] and all(c == n['cid'] for _, c in e['ck']):
+                e['size'] = '@' + full
+                e['ck'] = [[h, '@' + full] for h, _ in e['ck']]
+            else:
+                e['size'] = 7
+                e['ck'] = [[h, 'jstale'] for h, _ in e['ck']]
+    return scn
+
+
+def _triples(s, unname=None):
+    out = set()
+    for m in s['mfs']:
+        if not m.get('reg', True) or not m['ok']:
+            continue
+        d = m['p'][:-1]
+        for e in m['entries']:
+            p = d + e['p'] if e['tag'] not in ('DIST', 'TIMESTAMP') else e['p']
+            out.add(('/'.join(m['p']), e['tag'], '/'.join(p), tuple(sorted(h for h, _ in e['ck']))))
+    return out
+
+
+def replay_update(args):
+    idx, beh = args
+    rng = random.Random(idx)
+    root = tlc.scratch_dir('vur')
+    try:
+        conc = fm.Concretiser()
+        scn = _prep_update_scenario(beh['s0'])
+        fm.materialise(scn, root, conc=conc, palette={'c0': 3, 'c1': 3, 'c2': 5})
+        sub = conc.path(beh['sub'])
+        wm = beh['wm']
+        opts = {'hashes': ['SHA1'], 'sub': sub, 'sort': None, 'force': False, 'wm': None if wm < 0 else wm,
+                'fmt': None, 'profile': 'default', 'scandir_order': rng.choice(['asc', 'desc'])}
+        namer = fm.Namer()
+
+        class _L:
+            files = {}
+        recs = run_history(root, _L(), rng, namer, opts, {'tlc': idx})
+        for r in recs:
+            pe, px = PRED_END.get(beh['result'], ('?', '?'))
+            drift = []
+            if r['ev']['end'] != pe or (px and r['ev']['exc'] != px):
+                drift.append('update-result:%s/%s' % (beh['result'], r['ev']['exc'] or r['ev']['end']))
+            elif beh['result'] == 'ok':
+                want = _triples(beh['s1'])
+                got = _triples(r['s1'])
+                # names of TLC scenarios are plain, so projected names are identical
+                if want != got:
+                    drift.append('update-poststate')
+            r['drift'] = drift
+        return recs
+    finally:
+        shutil.rmtree(root, ignore_errors=True)
